@@ -20,6 +20,11 @@ NAME = "svc"
 ISOLATE = False  # execute() does its own isolation (it needs a pristine parent for references)
 CASE_TIMEOUT = 120.0
 CHUNK = 6
+# a C02 item is a whole enumeration (one isolated child per I/O call of the write phase, about 100): smaller chunks and a
+# longer allowance, so that a heavily loaded machine does not turn into HARNESS-ERROR (seen once in a soak run next to
+# three other batch jobs)
+CHUNKS = {"C02": 2}
+CASE_TIMEOUTS = {"C02": 600.0}
 
 REAL_VS_STUB = {
     "real": ["func_adl_xAOD executors, metadata processing, translator, templates (all of /repo's package)",
